@@ -228,3 +228,399 @@ Proof.
   cbn [map]. constructor; [|exact IH].
   split; cbn [fst snd]; apply pct_enc_valid; auto; intros c Hc; unfold dc_qres; now rewrite Hc.
 Qed.
+
+(* ------------------------------------------------------------------------------------ *)
+(* 4. grouping into map[string][]string: nothing lost, merged or re-attributed           *)
+(* ------------------------------------------------------------------------------------ *)
+
+Definition values_of (k : bytes) (l : list (bytes * bytes)) : list bytes :=
+  map snd (filter (fun p => bytes_eqb (fst p) k) l).
+
+Lemma grp_add_get k v g k0 :
+  gmap_get k0 (dc_grp_add k v g) = if bytes_eqb k k0 then gmap_get k0 g ++ [v] else gmap_get k0 g.
+Proof.
+  induction g as [|[k' vs] g IH]; cbn [dc_grp_add gmap_get].
+  - destruct (bytes_eqb k k0); reflexivity.
+  - destruct (bytes_eqb k' k) eqn:E.
+    + apply bytes_eqb_eq in E. subst k'. cbn [gmap_get]. destruct (bytes_eqb k k0); reflexivity.
+    + cbn [gmap_get]. destruct (bytes_eqb k' k0) eqn:E2.
+      * apply bytes_eqb_eq in E2. subst k0.
+        assert (bytes_eqb k k' = false) as ->; [|reflexivity].
+        apply bytes_eqb_neq. intro; subst. rewrite bytes_eqb_refl in E. discriminate.
+      * exact IH.
+Qed.
+
+Lemma group_fold_get l : forall g k0,
+  gmap_get k0 (fold_left (fun g p => dc_grp_add (fst p) (snd p) g) l g) = gmap_get k0 g ++ values_of k0 l.
+Proof.
+  induction l as [|[k v] l IH]; intros g k0; cbn [fold_left].
+  - unfold values_of. cbn. now rewrite app_nil_r.
+  - rewrite IH, grp_add_get. unfold values_of. cbn [filter fst snd].
+    destruct (bytes_eqb k k0); cbn [map]; [rewrite <- app_assoc|]; reflexivity.
+Qed.
+
+(* the values stored under a name are exactly the values sent under that name, in order *)
+Theorem group_pairs_lookup l k : gmap_get k (group_pairs l) = values_of k l.
+Proof. unfold group_pairs. now rewrite group_fold_get. Qed.
+
+Lemma grp_add_flat k v g : Permutation (gmap_flat (dc_grp_add k v g)) (gmap_flat g ++ [(k, v)]).
+Proof.
+  induction g as [|[k' vs] g IH]; cbn [dc_grp_add].
+  - reflexivity.
+  - destruct (bytes_eqb k' k) eqn:E.
+    + apply bytes_eqb_eq in E. subst k'. unfold gmap_flat. cbn [flat_map fst snd].
+      rewrite map_app. cbn [map]. rewrite <- !app_assoc. apply Permutation_app_head.
+      apply Permutation_app_comm.
+    + unfold gmap_flat in *. cbn [flat_map]. rewrite <- app_assoc. now apply Permutation_app_head.
+Qed.
+
+Lemma group_fold_flat l : forall g,
+  Permutation (gmap_flat (fold_left (fun g p => dc_grp_add (fst p) (snd p) g) l g)) (gmap_flat g ++ l).
+Proof.
+  induction l as [|[k v] l IH]; intro g; cbn [fold_left].
+  - now rewrite app_nil_r.
+  - rewrite IH. cbn [fst snd]. rewrite grp_add_flat, <- app_assoc. reflexivity.
+Qed.
+
+(* the parsed map holds exactly the pairs that were sent *)
+Theorem group_pairs_flat l : Permutation (gmap_flat (group_pairs l)) l.
+Proof. unfold group_pairs. now rewrite group_fold_flat. Qed.
+
+Lemma grp_add_keys k v g :
+  map fst (dc_grp_add k v g) = if existsb (fun k' => bytes_eqb k' k) (map fst g) then map fst g else map fst g ++ [k].
+Proof.
+  induction g as [|[k' vs] g IH]; cbn [dc_grp_add map existsb fst]; [reflexivity|].
+  destruct (bytes_eqb k' k) eqn:E; cbn [orb map fst]; [reflexivity|].
+  rewrite IH. destruct (existsb _ _); reflexivity.
+Qed.
+
+Lemma existsb_false_notin k ks : existsb (fun k' => bytes_eqb k' k) ks = false -> ~ In k ks.
+Proof.
+  intros H I. assert (existsb (fun k' => bytes_eqb k' k) ks = true); [|congruence].
+  apply existsb_exists. exists k. split; [exact I|apply bytes_eqb_refl].
+Qed.
+
+Lemma nodup_snoc {A} (l : list A) x : NoDup l -> ~ In x l -> NoDup (l ++ [x]).
+Proof.
+  induction l as [|y l IH]; intros H N; cbn [app].
+  - constructor; [intros []|constructor].
+  - inversion H; subst. constructor.
+    + intro I. apply in_app_or in I as [I|[I|[]]]; [contradiction|subst]. apply N. now left.
+    + apply IH; [assumption|]. intro I. apply N. now right.
+Qed.
+
+Lemma grp_add_nodup k v g : NoDup (map fst g) -> NoDup (map fst (dc_grp_add k v g)).
+Proof.
+  intro H. rewrite grp_add_keys. destruct (existsb _ _) eqn:E; [exact H|].
+  apply nodup_snoc; [exact H|]. now apply existsb_false_notin.
+Qed.
+
+(* no name appears twice as a key of the parsed map *)
+Theorem group_pairs_nodup l : NoDup (map fst (group_pairs l)).
+Proof.
+  unfold group_pairs. assert (G : NoDup (map fst (@nil (bytes * list bytes)))) by constructor.
+  revert G. generalize (@nil (bytes * list bytes)) as g.
+  induction l as [|p l IH]; intros g G; cbn [fold_left]; [exact G|].
+  apply IH. now apply grp_add_nodup.
+Qed.
+
+(* ------------------------------------------------------------------------------------ *)
+(* 5. the Map collection                                                                 *)
+(* ------------------------------------------------------------------------------------ *)
+
+Lemma bucket_add_flat fk e m : Permutation (cm_find_all (dc_bucket_add fk e m)) (cm_find_all m ++ [e]).
+Proof.
+  unfold cm_find_all. induction m as [|[k' es] m IH]; cbn [dc_bucket_add].
+  - reflexivity.
+  - destruct (bytes_eqb k' fk); cbn [flat_map snd].
+    + rewrite <- !app_assoc. apply Permutation_app_head. apply Permutation_app_comm.
+    + rewrite <- app_assoc. now apply Permutation_app_head.
+Qed.
+
+Lemma bucket_add_keys fk e m :
+  map fst (dc_bucket_add fk e m) =
+  if existsb (fun k' => bytes_eqb k' fk) (map fst m) then map fst m else map fst m ++ [fk].
+Proof.
+  induction m as [|[k' es] m IH]; cbn [dc_bucket_add map existsb fst]; [reflexivity|].
+  destruct (bytes_eqb k' fk) eqn:E; cbn [orb map fst]; [reflexivity|].
+  rewrite IH. destruct (existsb _ _); reflexivity.
+Qed.
+
+Lemma bucket_add_get fk e m fk0 :
+  dc_bucket_get fk0 (dc_bucket_add fk e m) =
+  if bytes_eqb fk fk0 then dc_bucket_get fk0 m ++ [e] else dc_bucket_get fk0 m.
+Proof.
+  induction m as [|[k' es] m IH]; cbn [dc_bucket_add dc_bucket_get].
+  - destruct (bytes_eqb fk fk0); reflexivity.
+  - destruct (bytes_eqb k' fk) eqn:E.
+    + apply bytes_eqb_eq in E. subst k'. cbn [dc_bucket_get]. destruct (bytes_eqb fk fk0); reflexivity.
+    + cbn [dc_bucket_get]. destruct (bytes_eqb k' fk0) eqn:E2.
+      * apply bytes_eqb_eq in E2. subst fk0.
+        assert (bytes_eqb fk k' = false) as ->; [|reflexivity].
+        apply bytes_eqb_neq. intro; subst. rewrite bytes_eqb_refl in E. discriminate.
+      * exact IH.
+Qed.
+
+Section WithFold.
+Variable fold : bytes -> bytes.
+
+Definition add_pairs (m : cmap) (fl : list kv) : cmap :=
+  fold_left (fun m p => cm_add fold m (fst p) (snd p)) fl m.
+Definition seq_add (limit : nat) (m : cmap) (fl : list kv) : cmap :=
+  fold_left (fun m p => add_argument fold limit m (fst p) (snd p)) fl m.
+
+Lemma fold_left_map {A B C} (f : A -> B -> A) (h : C -> B) l : forall a,
+  fold_left f (map h l) a = fold_left (fun a c => f a (h c)) l a.
+Proof. induction l as [|x l IH]; intro a; cbn [map fold_left]; [reflexivity|apply IH]. Qed.
+
+(* the nested range loops visit the pairs of the map in flattened order *)
+Lemma extract_flat limit ord : forall m,
+  extract_arguments fold limit m ord = seq_add limit m (gmap_flat ord).
+Proof.
+  unfold extract_arguments, seq_add, gmap_flat.
+  induction ord as [|g ord IH]; intro m; cbn [fold_left flat_map]; [reflexivity|].
+  rewrite fold_left_app, <- IH. f_equal.
+  unfold add_group. rewrite fold_left_map. reflexivity.
+Qed.
+
+Lemma add_all_flat ord : forall m, add_all_groups fold m ord = add_pairs m (gmap_flat ord).
+Proof.
+  unfold add_all_groups, add_pairs, gmap_flat.
+  induction ord as [|g ord IH]; intro m; cbn [fold_left flat_map]; [reflexivity|].
+  rewrite fold_left_app, <- IH. f_equal. rewrite fold_left_map. reflexivity.
+Qed.
+
+Lemma add_pairs_find_all fl : forall m, Permutation (cm_find_all (add_pairs m fl)) (cm_find_all m ++ fl).
+Proof.
+  unfold add_pairs. induction fl as [|[k v] fl IH]; intro m; cbn [fold_left].
+  - now rewrite app_nil_r.
+  - rewrite IH. unfold cm_add. cbn [fst snd]. rewrite bucket_add_flat, <- app_assoc. reflexivity.
+Qed.
+
+(* FindString / Get: exactly the entries whose folded name equals the folded key, in order *)
+Lemma add_pairs_bucket fl fk : forall m,
+  dc_bucket_get fk (add_pairs m fl) =
+  dc_bucket_get fk m ++ filter (fun e => bytes_eqb (fold (fst e)) fk) fl.
+Proof.
+  unfold add_pairs. induction fl as [|[k v] fl IH]; intro m; cbn [fold_left].
+  - now rewrite app_nil_r.
+  - rewrite IH. unfold cm_add. cbn [fst snd filter]. rewrite bucket_add_get.
+    destruct (bytes_eqb (fold k) fk); [rewrite <- app_assoc|]; reflexivity.
+Qed.
+
+(* number of distinct folded names *)
+Fixpoint dc_dedup (l : list bytes) : list bytes :=
+  match l with
+  | [] => []
+  | x :: r => if existsb (bytes_eqb x) r then dc_dedup r else x :: dc_dedup r
+  end.
+Lemma dedup_incl l : incl l (dc_dedup l).
+Proof.
+  induction l as [|x l IH]; intros y I; [exact I|].
+  cbn [dc_dedup]. destruct (existsb (bytes_eqb x) l) eqn:E.
+  - destruct I as [<-|I]; [|now apply IH].
+    apply existsb_exists in E as (z & Iz & Ez). apply bytes_eqb_eq in Ez. subst z. now apply IH.
+  - destruct I as [<-|I]; [now left|right; now apply IH].
+Qed.
+Definition distinct_names (l : list kv) : nat := length (dc_dedup (map (fun p => fold (fst p)) l)).
+
+Definition cm_inv (K : list bytes) (m : cmap) : Prop := NoDup (map fst m) /\ incl (map fst m) K.
+
+Lemma cm_add_inv K m k v : cm_inv K m -> In (fold k) K -> cm_inv K (cm_add fold m k v).
+Proof.
+  intros [N I] Hk. unfold cm_inv, cm_add. rewrite bucket_add_keys.
+  destruct (existsb _ _) eqn:E; [now split|]. split.
+  - apply nodup_snoc; [exact N|]. now apply existsb_false_notin.
+  - intros y Iy. apply in_app_or in Iy as [Iy|[<-|[]]]; [now apply I|exact Hk].
+Qed.
+
+Lemma cm_inv_len K m : cm_inv K m -> (cm_len m <= length (dc_dedup K))%nat.
+Proof.
+  intros [N I]. unfold cm_len. rewrite <- (map_length fst). apply NoDup_incl_length; [exact N|].
+  intros y Iy. apply dedup_incl. now apply I.
+Qed.
+
+(* below the limit the limit check never fires *)
+Lemma seq_add_under_limit limit K fl : forall m,
+  (length (dc_dedup K) < limit)%nat -> cm_inv K m -> (forall p, In p fl -> In (fold (fst p)) K) ->
+  seq_add limit m fl = add_pairs m fl.
+Proof.
+  unfold seq_add, add_pairs. induction fl as [|[k v] fl IH]; intros m L Inv Hk; cbn [fold_left]; [reflexivity|].
+  assert (E : add_argument fold limit m k v = cm_add fold m k v).
+  { unfold add_argument. pose proof (cm_inv_len K m Inv).
+    destruct (limit <=? cm_len m)%nat eqn:C; [apply Nat.leb_le in C; lia|reflexivity]. }
+  cbn [fst snd]. rewrite E. apply IH; [exact L| |].
+  - apply cm_add_inv; [exact Inv|]. apply (Hk (k, v)). now left.
+  - intros p Ip. apply Hk. now right.
+Qed.
+
+(* C03_args_visible at the level of the collection: under the limit, whatever order Go's map
+   iteration takes, ARGS_GET holds exactly the pairs that were sent *)
+Theorem extract_under_limit limit l ord :
+  (distinct_names l < limit)%nat -> Permutation (gmap_flat ord) l ->
+  Permutation (cm_find_all (extract_arguments fold limit [] ord)) l.
+Proof.
+  intros L P. rewrite extract_flat.
+  rewrite (seq_add_under_limit limit (map (fun p => fold (fst p)) l)).
+  - rewrite add_pairs_find_all. exact P.
+  - exact L.
+  - split; [constructor|intros y []].
+  - intros p Ip. apply in_map_iff. exists p. split; [reflexivity|].
+    eapply Permutation_in; eauto.
+Qed.
+
+End WithFold.
+
+(* ------------------------------------------------------------------------------------ *)
+(* 6. ProcessURI end to end on origin-form URIs                                          *)
+(* ------------------------------------------------------------------------------------ *)
+
+Definition dc_qbyte (b : byte) : bool := dc_unreserved b || (b =? 37) || (b =? 38) || (b =? 61).
+
+Lemma hex_up_unreserved n : n < 16 -> dc_unreserved (dc_hex_up n) = true.
+Proof.
+  intro H. assert (In n [0;1;2;3;4;5;6;7;8;9;10;11;12;13;14;15]).
+  { cbn. repeat (destruct (N.eq_dec n _) as [->|?]; [auto 20|]); try lia.
+    all: exfalso; lia. }
+  cbn in H0. repeat destruct H0 as [<-|H0]; try reflexivity. contradiction.
+Qed.
+
+Lemma pct_enc_qbytes s : wf_bytes s -> forallb dc_qbyte (pct_enc s) = true.
+Proof.
+  intro H. induction H as [|c s Hc Hs IH]; [reflexivity|].
+  unfold pct_enc. cbn [flat_map]. fold (pct_enc s). rewrite forallb_app, IH, andb_true_r.
+  destruct (dc_unreserved c) eqn:E.
+  - cbn [forallb]. unfold dc_qbyte. now rewrite E.
+  - unfold pct_byte. cbn [forallb]. unfold wf_byte in Hc. unfold dc_qbyte at 2 3.
+    rewrite !hex_up_unreserved; [reflexivity| |].
+    + apply N.mod_lt. discriminate.
+    + apply N.div_lt_upper_bound; lia.
+Qed.
+
+Lemma forallb_join f sep l :
+  forallb f sep = true -> forallb (forallb f) l = true -> forallb f (dc_join sep l) = true.
+Proof.
+  intros Hs. induction l as [|x l IH]; intro H; [reflexivity|].
+  cbn [forallb] in H. apply andb_true_iff in H as [Hx Hl].
+  cbn [dc_join]. destruct l as [|y l']; [exact Hx|].
+  rewrite !forallb_app, Hx, Hs. cbn [andb]. now apply IH.
+Qed.
+
+Lemma enc_query_qbytes l : wf_pairs l -> forallb dc_qbyte (enc_query l) = true.
+Proof.
+  intro H. unfold enc_query. apply forallb_join; [reflexivity|].
+  induction H as [|p l [Hk Hv] Hl IH]; [reflexivity|].
+  cbn [map forallb]. rewrite IH, andb_true_r. unfold enc_pair.
+  rewrite !forallb_app, !pct_enc_qbytes by assumption. reflexivity.
+Qed.
+
+Lemma unreserved_cases c : dc_unreserved c = true ->
+  (48 <= c <= 57) \/ (65 <= c <= 90) \/ (97 <= c <= 122) \/ c = 45 \/ c = 46 \/ c = 95 \/ c = 126.
+Proof.
+  unfold dc_unreserved, dc_in. intro H.
+  repeat (apply orb_true_iff in H as [H|H]);
+    repeat (apply andb_true_iff in H as [? H]);
+    repeat match goal with
+           | X : (_ <=? _) = true |- _ => apply N.leb_le in X
+           | X : (_ =? _) = true |- _ => apply N.eqb_eq in X
+           end; lia.
+Qed.
+
+Lemma qbyte_props b : dc_qbyte b = true -> b <> 35 /\ b <> 63 /\ dc_no_ctl b = true.
+Proof.
+  unfold dc_qbyte. intro H.
+  assert (C : (32 <= b /\ b <> 127 /\ b <> 35 /\ b <> 63)).
+  { apply orb_true_iff in H as [H|H]; [apply orb_true_iff in H as [H|H]; [apply orb_true_iff in H as [H|H]|]|].
+    - apply unreserved_cases in H. lia.
+    - apply N.eqb_eq in H. lia.
+    - apply N.eqb_eq in H. lia.
+    - apply N.eqb_eq in H. lia. }
+  destruct C as (C1 & C2 & C3 & C4). repeat split; try assumption.
+  unfold dc_no_ctl. apply andb_true_iff. split; apply negb_true_iff.
+  - apply N.ltb_ge. exact C1.
+  - now apply N.eqb_neq.
+Qed.
+
+Lemma path_byte_props b : dc_path_byte b = true -> b <> 35 /\ b <> 63.
+Proof.
+  unfold dc_path_byte. intro H. apply orb_true_iff in H as [H|H].
+  - apply unreserved_cases in H. lia.
+  - apply N.eqb_eq in H. lia.
+Qed.
+
+Lemma forallb_notin (f : byte -> bool) c s : forallb f s = true -> f c = false -> ~ In c s.
+Proof.
+  intros H Hc I. rewrite forallb_forall in H. specialize (H _ I). congruence.
+Qed.
+
+Lemma origin_path_bytes p : dc_origin_path p = true -> forallb dc_path_byte p = true.
+Proof.
+  destruct p as [|a r]; [discriminate|]. unfold dc_origin_path.
+  intro H. apply andb_true_iff in H as [_ H]. exact H.
+Qed.
+
+Lemma cut_fragment_none u : ~ In 35 u -> dc_cut_fragment u = u.
+Proof. intro H. unfold dc_cut_fragment. now rewrite cut_absent. Qed.
+
+Section UriFold.
+Variable fold : bytes -> bytes.
+
+(* what ProcessURI leaves in the variables for "/path?" ++ enc_query l *)
+Theorem process_uri_visible limit l path ord method proto :
+  wf_pairs l -> dc_origin_path path = true ->
+  (distinct_names fold l < limit)%nat ->
+  Permutation ord (parse_query (enc_query l) 38) ->
+  let uri := path ++ [63] ++ enc_query l in
+  let t := process_uri fold dc_simple_parse_uri limit (fun _ => ord) txv_empty uri method proto in
+  Permutation (cm_find_all (v_args_get t)) l /\
+  Permutation (var_args t) l /\
+  Permutation (var_args_names t) (map (fun p => (fst p, fst p)) l) /\
+  v_query_string t = enc_query l /\ v_uri_raw t = uri /\ v_uri t = uri /\
+  v_filename t = path /\ v_basename t = dc_basename path /\ v_urlencoded_error t = false.
+Proof.
+  intros Hwf Hpath Hlim Hord uri t.
+  pose proof (origin_path_bytes _ Hpath) as Hpb.
+  pose proof (enc_query_qbytes _ Hwf) as Hqb.
+  assert (Hno35 : ~ In 35 uri).
+  { unfold uri. intro I. apply in_app_or in I as [I|I].
+    - rewrite forallb_forall in Hpb. apply Hpb in I. apply path_byte_props in I. lia.
+    - cbn [app] in I. destruct I as [I|I]; [discriminate|].
+      rewrite forallb_forall in Hqb. apply Hqb in I. apply qbyte_props in I. lia. }
+  assert (Hno63 : ~ In 63 path).
+  { intro I. rewrite forallb_forall in Hpb. apply Hpb in I. apply path_byte_props in I. lia. }
+  assert (Hsimple : dc_simple_parse_uri uri = Some (mk_uri path (enc_query l) uri)).
+  { unfold dc_simple_parse_uri, dc_simple_uri, uri. cbn [app]. rewrite cut_app by exact Hno63.
+    rewrite Hpath. cbn [andb].
+    assert (forallb dc_no_ctl (enc_query l) = true) as ->; [|reflexivity].
+    apply forallb_forall. intros b I. rewrite forallb_forall in Hqb. apply Hqb in I.
+    now apply qbyte_props in I. }
+  assert (Hget : Permutation (cm_find_all (v_args_get t)) l).
+  { unfold t, process_uri. rewrite cut_fragment_none by exact Hno35. rewrite Hsimple.
+    cbn [v_args_get u_rawquery txv_empty].
+    apply extract_under_limit; [exact Hlim|].
+    eapply Permutation_trans; [unfold gmap_flat; apply Permutation_flat_map; exact Hord|].
+    unfold parse_query, do_parse_query. rewrite query_roundtrip_pairs by exact Hwf.
+    apply group_pairs_flat. }
+  assert (Hpost : v_args_post t = [] /\ v_args_path t = []).
+  { unfold t, process_uri. rewrite cut_fragment_none by exact Hno35. rewrite Hsimple. now cbn. }
+  destruct Hpost as [Hp1 Hp2].
+  repeat split.
+  - exact Hget.
+  - unfold var_args. rewrite Hp1, Hp2. cbn [cm_find_all flat_map]. now rewrite !app_nil_r.
+  - unfold var_args_names, cm_names. rewrite Hp1, Hp2. cbn [cm_find_all flat_map map]. rewrite !app_nil_r.
+    now apply Permutation_map.
+  - unfold t, process_uri. rewrite cut_fragment_none by exact Hno35. rewrite Hsimple. reflexivity.
+  - unfold t, process_uri. rewrite cut_fragment_none by exact Hno35. rewrite Hsimple. reflexivity.
+  - unfold t, process_uri. rewrite cut_fragment_none by exact Hno35. rewrite Hsimple. reflexivity.
+  - unfold t, process_uri. rewrite cut_fragment_none by exact Hno35. rewrite Hsimple. reflexivity.
+  - unfold t, process_uri. rewrite cut_fragment_none by exact Hno35. rewrite Hsimple. reflexivity.
+  - unfold t, process_uri. rewrite cut_fragment_none by exact Hno35. rewrite Hsimple. reflexivity.
+Qed.
+
+(* an unparseable URI is signalled *)
+Theorem process_uri_error_signalled parse_uri limit qo t uri method proto :
+  parse_uri (dc_cut_fragment uri) = None ->
+  v_urlencoded_error (process_uri fold parse_uri limit qo t uri method proto) = true.
+Proof. intro H. unfold process_uri. now rewrite H. Qed.
+
+End UriFold.
